@@ -155,4 +155,14 @@ func runPorcCase(r *run.R, idx int, merge func(map[string]int)) {
 	r.Eval(1)
 	r.Nontrivial(caseID)
 	merge(cnt)
+	if idx == 0 {
+		var ops []string
+		for i, o := range hist {
+			if i >= 12 {
+				break
+			}
+			ops = append(ops, fmt.Sprintf("c%d [%d,%d] %s", o.ClientId, o.Call, o.Return, memModel(limit).DescribeOperation(o.Input, o.Output)))
+		}
+		r.Sample(map[string]any{"case": caseID, "kind": "single-scope linearizability", "system_memory_limit": limit, "clients": nw, "operations": len(hist), "first_ops": ops, "result": string(res)})
+	}
 }
